@@ -59,14 +59,16 @@ CLAIMS.update({
               "inverse ft2/ift2 (group law, -z undoes +z, z = 0 returns the input); every propagator's normal form equals the textbook "
               "discretisation of the Fresnel integral (kernel sign, 1/(i lambda z), grids), and the two-step propagator equals two "
               "chained one-step evaluations (forward or mirrored kernel) whose final true sample spacing is +d2 on every feasible sign of the "
-              "step distances (orientation); a special-cased unit-magnification path is admitted only under outputSpacing == inputSpacing. Not decided: Gaussian-beam/Airy references, magnification round trip up to a phase."),
+              "step distances (orientation; the same for the one-step routine); no special case is dispatched through ZeroDivisionError, "
+              "no constant is added to a squared radius inside a chirp; a special-cased unit-magnification path is admitted only under outputSpacing == inputSpacing. Not decided: Gaussian-beam/Airy references, magnification round trip up to a phase."),
         note="Trusted: oracle text in sa/props/c11.py (Schmidt 2010); numpy ifft2 o fft2 = id; square grids."),
     "C07": dict(
         category="other", design="DESIGN.md §3 C07",
         technique="static analysis: abstract interpretation of the screen generators (loops summarised, not unrolled) to a normal form in draws/grids/parameters, compared with the spectral law of the property; degree queries",
         text=("Both FFT screen generators are reduced to normal forms and shown equal to the law in the property (PSD constants and "
               "exponents, frequency grid k/(N delta), zero-frequency bin, (n1 + i n2) sqrt(PSD) del_f coefficients, plain inverse "
-              "DFT sum, real part; three sub-harmonic 3x3 grids, mean removal); linear in each draw and r0^(-5/6). Statistical "
+              "DFT sum, real part; three sub-harmonic 3x3 grids, mean removal); all draws of one screen from one generator stream (no two "
+              "generators started from the same seed); linear in each draw and r0^(-5/6). Statistical "
               "convergence clauses are not decided."),
         note="Trusted: oracle text in sa/props/c07.py; even N (hypothesis of the property); numpy ifft2 normalisation."),
     "C08": dict(
@@ -75,7 +77,7 @@ CLAIMS.update({
         text=("D = 2(C(0)-C(r)) term by term, D(0) = 0 exactly (as the limit of the closed form AND as the value the code computes at exactly r = 0: "
               "supplied explicitly or the argument kept off 0), saturation 2*0.0863, Kolmogorov limit and constants, PSD constant and "
               "exponents in both screen generators, r0^(-5/3) scaling, and exact agreement of the slope-covariance and KL copies are "
-              "decided as identities between normal forms for all r, r0, L0; no result array takes the dtype of an integer argument. Monotonicity / PSD-ness / the Hankel integral are not."),
+              "decided as identities between normal forms for all r, r0, L0; no result array takes the dtype of an integer argument and no closed form is narrowed below double precision. Monotonicity / PSD-ness / the Hankel integral are not."),
         note="Trusted: small-argument expansion of K_v; published constants compared with per-identity tolerances (1e-3, 2.5e-2)."),
 })
 
@@ -146,7 +148,7 @@ CLAIMS.update({
               "covariance it stands for, with no flip/transpose between per-pair result and block; compute_covariance_xx/yy/xy equal "
               "the finite-difference expansion in the structure function, which is one element-wise von Karman law; separations s[i,j] = p2[j]-p1[i]; scale lambda_i lambda_j/"
               "(8 pi^2 d_i d_j) with projected diameters; r0^(-5/3); zero-initialised += accumulation over all layers; sub-aperture "
-              "centres and cone/offset projection formulas on copies; lower block triangle + OR-mirror. Positive semi-definiteness "
+              "centres and cone/offset projection formulas on copies; lower block triangle + mirror tril(C) + tril(C, -1).T (never through bit patterns). Positive semi-definiteness "
               "and rounding are not decided. Known findings: unequal projected diameters (xx/yy term, yx block)."),
         note="Trusted: finite-difference covariance identity for stationary fields (oracle text); numpy.where order; gs_altitudes are altitudes."),
     "C02": dict(
@@ -173,7 +175,7 @@ CLAIMS.update({
         text=("A = Cov_xz inv(Cov_zz), B = U diag(sqrt w) from svd(Cov_xx - A Cov_zx), block cuts matching the (stencil, new row) "
               "concatenation order, Euclidean separations x pixel_scale in both kernels, gather coordinates = covariance "
               "coordinates, new row at row -1, row = A Z + B b with one N(0,1) draw (Fried: A (Z - rho) + B b + rho), "
-              "phase_covariance(separations, r0, L0), von Karman stencil rows, and a constructor order in which every step's inputs "
+              "phase_covariance(separations, r0, L0) evaluated in double precision, von Karman stencil rows, and a constructor order in which every step's inputs "
               "exist; floating dtype of the separation matrix; the initial screen is drawn from the instance generator itself (innovation "
               "independent of the screen); no state shared between instances. Conditioning, stationarity as a statistical fact and "
               "Fried's stencil geometry are not decided."),
